@@ -535,6 +535,12 @@ class M2Executor(Executor):
         return out
 
     def call(self, f, args, kwargs, st, fr, node):
+        if not isinstance(f, VOpaque) and isinstance(node, ast.Call) and self._callee_name(node) is None \
+                and '<computed-callee>' in self.spec.hooks:
+            # callee taken from a real table (e.g. a dict of optional bindings): the task's site contract applies as well
+            r = self.spec.hooks['<computed-callee>'](self, f, list(args), kwargs, st, fr, node)
+            if r is not None:
+                return r
         if isinstance(f, VOpaque):
             nm = self._callee_name(node) or 'call'
             if self._callee_name(node) is None and '<computed-callee>' in self.spec.hooks:
